@@ -9,7 +9,8 @@ hooks = subprocess.run(["git", "-C", "/repo", "log", "--format=%H", "--grep=^ver
 NOTE = ("Trusted: Lean 4.33 kernel (axioms propext, Classical.choice, Quot.sound only; audited with #print axioms on every run), "
         "factgen + Expect.lean, the correspondence harness and its generators/fakes (vnet sockets, libif, synctest clock), Go toolchain. "
         "The theorems are about the hand-written Lean model; the model is tied to /repo by the differential correspondence and the "
-        "regenerated source facts on every check. ")
+        "regenerated source facts on every check; for the functions listed in DESIGN.md §13 a Lean translation of the Go source is regenerated "
+        "on every check and proved equal to the model (trusted there: the translator /verif/xlate and lean/PsaDhcp/Go/Prelude.lean). ")
 checks = []
 for pid in sorted(PROPS):
     c = PROPS[pid]
@@ -21,7 +22,9 @@ for pid in sorted(PROPS):
         "engine": "lean4-proof+correspondence",
         "level_claimed": {"category": "proof", "text": c["level"], "design_ref": "DESIGN.md §7 " + pid},
         "level_note": NOTE + c.get("partial", ""),
-        "technique": c.get("technique", "Lean 4 theorems over a hand-written executable model + differential correspondence against the Go code + regenerated source facts"),
+        "technique": c.get("technique", "Lean 4 theorems over a hand-written executable model + differential correspondence against the Go code + regenerated source facts")
+                     + (" + Lean translation of the Go source regenerated on every run (xlate) with proofs that it equals the model (modules %s)"
+                        % ", ".join(m for m in c["props"] if m.endswith("Code")) if any(m.endswith("Code") for m in c["props"]) else ""),
     })
 claimed = {c["property_id"] for c in checks}
 na = []
@@ -32,7 +35,7 @@ m = {"version": 1, "setup_cmd": "./setup.sh",
      "hooks": {"guard": "verif", "enable": "go1.26.8 test -c -tags verif in /verif/harness (module with replace => /repo)",
                "baseline_off_cmd": "cd /repo && go test -vet=off -count=1 ./lib/...", "source_commits": hooks, "add_only": True},
      "engines": [{"name": "lean4-proof+correspondence", "path": "/verif/check", "serves_properties": sorted(claimed),
-                  "kind_free_text": "Lean 4 machine-checked proofs over executable models (lean/), Go differential harness (harness/), go/ast fact extractor (factgen/)"}],
+                  "kind_free_text": "Lean 4 machine-checked proofs over executable models (lean/), Go differential harness (harness/), go/ast fact extractor (factgen/), Go->Lean translator (xlate/)"}],
      "checks": checks, "not_applicable": na,
      "notes": "See DESIGN.md. ./check <id> --tier quick|thorough [--replay f]; VERIF_SEED seeds every random choice; build output under /verif/.build."}
 json.dump(m, open('/verif/MANIFEST.json', 'w'), indent=1)
